@@ -426,7 +426,7 @@ func genRenderCase(r *Rng, errs bool, ct string) (env, tmpl, feeder string) {
 func init() {
 	corrStreams["render-gen"] = func(cfg Config, emit func(string)) {
 		r := NewRng(cfg.Seed).Fork(11)
-		n := cfg.N(6000, 120000)
+		n := cfg.N(20000, 300000)
 		for i := 0; i < n; i++ {
 			ct := ""
 			if i%7 == 3 {
